@@ -13,13 +13,13 @@ CHECKS = {
     },
     "C02": {
         "technique": "TLA+ spec (TermAlgebra.tla: set-valued denotation + transcription of the operator overloads) model checked with TLC over every formula up to an operator bound; each exported formula replayed into model_description; random deeper formulas judged by TLC (TermAlgebra_Trace)",
-        "text": "Bounded-exhaustive: a stack machine enumerates every formula of the documented language (term expressions over + - : * / **, intercept literals as additive items of the right-hand side and of effect sides, group terms) up to 4 operators over 3 atoms incl. a call with a literal argument (quick: 135k formulas; thorough: 4 atoms, and 5 operators over 2 atoms); TLC checks that the class-by-class transcription of terms.py (terms compared as sets of components, as the code does since the term-identity repair) refines the set semantics outside one named deviation class; every formula is then resolved by the real code, with and without response, and compared with the Abs denotation. Random formulas of depth <= 7 with up to 5 additive items are resolved by the real code and judged by TLC. The name of every term must spell exactly its factors, each once.",
+        "text": "Bounded-exhaustive: a stack machine enumerates every formula of the documented language (term expressions over + - : * / **, intercept literals as additive items of the right-hand side and of effect sides, group terms) up to 4 operators over 3 atoms incl. a call with a literal argument (quick: 145k formulas; thorough: 4 atoms, and 5 operators over 2 atoms; variables are written with multi-character names that are anagrams of each other; group expressions are subtracted as well as added); TLC checks that the class-by-class transcription of terms.py (terms compared as sets of components, as the code does since the term-identity repair) refines the set semantics outside one named deviation class; every formula is then resolved by the real code, with and without response, and compared with the Abs denotation. Random formulas of depth <= 7 with up to 5 additive items are resolved by the real code and judged by TLC. The name of every term must spell exactly its factors, each once.",
         "ref": "DESIGN.md §3.4, §4 C02",
         "note": "Trusted: TLC, fv/project.py:model_abs, the renderer in fv/drivers/c02.py. A term is the set of its factors (a:b = b:a), for the code as for the specification; '-' applied to a chain without a term and effect sides that denote nothing are outside the domain. Open finding KF_C02_late_literal.",
     },
     "C04": {
         "technique": "TLA+ specs (Design.tla: cell-level meaning of labels, label order, slices; CallKinds.tla: kind, coding and level order of the value a call returns; DesignOrder.tla: column order of interactions) model checked with TLC on a small scope; every TLC-generated (frame, formula) case replayed into design_matrices and compared cell by cell; recorded builds on random frames judged by TLC (Design_Trace)",
-        "text": "TLC enumerates every frame of the small scope (3-4 rows, factors with up to 3 levels) x 18 formula shapes (incl. nesting f/g, group terms of two factors, subset-notation responses), checks the Abs design function's theorems and exports the complete expected design (labels, cells, slices); the real code is run on each and must agree exactly. Random worlds (3-30 rows; factors stored as object / pandas string / Categorical / ordered Categorical / integer-via-C columns, integers stored as int64 / float64 / nullable Int64, unequal level counts, numeric calls, interactions up to arity 3 in random factor order, group terms) are built by the real code and every recorded design is judged by TLC: each cell equals the meaning of its label, labels and columns agree in number and order, levels sorted or as declared, cartesian label order with the first factor slowest. The same designs are then evaluated on new data (all training rows, reordered and partly repeated) and the resulting matrices are judged against the same labels; other designs are read only after they were evaluated and printed on frames with never-seen levels. CallKinds_MC: every type of value a callee may return (1- and 2-column arrays, numeric and boolean Series, strings, unordered / ordered categoricals, CategoricalBox with default / Sum / explicit levels, list, dict, None, scalar) x with / without intercept is returned by a user callee in a formula and the columns must be those of the specified coding and level order, at training time and on new data.",
+        "text": "TLC enumerates every frame of the small scope (3-4 rows, factors with up to 3 levels) x 18 formula shapes (incl. nesting f/g, group terms of two factors, subset-notation responses), checks the Abs design function's theorems and exports the complete expected design (labels, cells, slices); the real code is run on each and must agree exactly. Random worlds (3-30 rows, now and then 45-75; factors with 2-4 and now and then up to 11 levels, 2-5 or 9-12 integer levels of k; factors stored as object / pandas string / Categorical / ordered Categorical / integer-via-C columns, integers stored as int64 / float64 / nullable Int64, unequal level counts, numeric calls, interactions up to arity 3 in random factor order, group terms) are built by the real code and every recorded design is judged by TLC: each cell equals the meaning of its label, labels and columns agree in number and order, levels sorted or as declared, cartesian label order with the first factor slowest. The same designs are then evaluated on new data (all training rows, reordered and partly repeated) and the resulting matrices are judged against the same labels; other designs are read only after they were evaluated and printed on frames with never-seen levels. CallKinds_MC: every type of value a callee may return (1- and 2-column arrays, numeric and boolean Series, strings, unordered / ordered categoricals, CategoricalBox with default / Sum / explicit levels, list, dict, None, scalar) x with / without intercept is returned by a user callee in a formula and the columns must be those of the specified coding and level order, at training time and on new data.",
         "ref": "DESIGN.md §3.7, §4 C04",
         "note": "Trusted: TLC, fv/design.py and fv/gen.py (materialisation of abstract frames, parsing of label strings with the generator's name tables). Integer-valued data only (exact products). Builds that raise are counted, not judged here.",
     },
@@ -31,7 +31,7 @@ CHECKS = {
     },
     "C15": {
         "technique": "TLA+ spec (Design.tla response meaning; Design_Trace judge with build / rows / refuse events) checked with TLC; small-scope cases replayed; recorded response forms judged by TLC",
-        "text": "Small-scope S->C incl. a categorical response; recorded builds with numeric / str / Categorical / ordered / call responses judged cell by cell; subset notation y[ident], y['quoted'], y[\"quoted\"] must be 1 exactly where y equals the level, also for a level that never occurs, is a declared but unobserved category, or occurs only on dropped rows (an all-zero column); prop/p/proportion with column or constant trials must give successes and trials and refuse invalid data; predictors must be identical under a different response (rows relation judged by TLC); multi-term responses must be refused; no response => no response matrix; CallKinds_MC: every type of value a callee may return, used as the response (factor-valued results give one indicator per level in sorted / declared / given order, prop only as response, offset refused); missing values in columns the formula does not use must not cost the response a row (response part judged alone).",
+        "text": "Small-scope S->C incl. a categorical response; recorded builds with numeric / str / Categorical / ordered / call responses judged cell by cell; a factor-valued response has its indicator columns in level order (sorted, numeric for integer classes, or as declared); subset notation y[ident], y['quoted'], y[\"quoted\"] must be 1 exactly where y equals the level, also for a level that never occurs, is a declared but unobserved category, or occurs only on dropped rows (an all-zero column); prop/p/proportion with column or constant trials must give successes and trials and refuse invalid data; predictors must be identical under a different response (rows relation judged by TLC); multi-term responses must be refused; no response => no response matrix; CallKinds_MC: every type of value a callee may return, used as the response (factor-valued results give one indicator per level in sorted / declared / given order, prop only as response, offset refused); missing values in columns the formula does not use must not cost the response a row (response part judged alone).",
         "ref": "DESIGN.md §3.7, §4 C15",
         "note": "Trusted: as C04; the label of a subset-notation response is taken from the formula text.",
     },
@@ -61,7 +61,7 @@ CHECKS = {
     },
     "C10": {
         "technique": "TLA+ spec (Design.tla: levels frozen at training, zero rule, trailing group block, factor list; Lifecycle config discipline) model checked with TLC (UnseenTheorem) and replayed; recorded evaluations with unseen levels under mode sequences judged by TLC (Design_Trace unseen clause, Lifecycle_Trace config clause)",
-        "text": "TLC enumerates rows of every small-scope training frame with cells of the predictor f, the grouping variable g or both replaced by a never-seen level under the three modes, proves the zero rule / block-width rule on the Abs evaluation and exports the expected matrices, slices and factor lists; cases are replayed through evaluate_new_data with the configured mode (warnings matched by formulae's message). Random worlds x formulas with unseen levels placed in predictors, effect and grouping variables (str, ordered categorical, C(k), interaction factors), up to 3 evaluations per design with mode changes in between (a new frame or the very same frame object again), are judged event by event by TLC. 28 assignments of documented and undocumented keys/values are judged against the config discipline.",
+        "text": "TLC enumerates rows of every small-scope training frame with cells of the predictor f, the grouping variable g or both replaced by a never-seen level under the three modes, proves the zero rule / block-width rule on the Abs evaluation and exports the expected matrices, slices and factor lists; cases are replayed through evaluate_new_data with the configured mode (warnings matched by formulae's message). Random worlds x formulas with unseen levels placed in predictors, effect and grouping variables (str, ordered categorical, C(k), sum-coded S(h) / C(g, Sum), a numeric grouping variable, interaction factors), up to 3 evaluations per design with mode changes in between (a new frame or the very same frame object again), are judged event by event by TLC. 28 assignments of documented and undocumented keys/values are judged against the config discipline.",
         "ref": "DESIGN.md §3.7, §3.8, §4 C10",
         "note": "Trusted: as C04. In 'error' mode an unseen level anywhere in the evaluated matrix must raise ValueError. Integer-valued data.",
     },
@@ -73,13 +73,13 @@ CHECKS = {
     },
     "C05": {
         "technique": "TLA+ spec: Design.tla (block structure, slot order, cell meaning of e|g[l] labels) and Contrasts.tla (atom theory applied to the effect-side family of each grouping factor) model checked with TLC; small-scope replay, recorded builds judged by TLC, effect families decided by exact ranks",
-        "text": "Cell-level: Design_MC group formulas replayed exactly; random builds with group terms (intercept, numeric, categorical, call and interaction effects; single, interaction, sum and C() grouping expressions; the same effect under two factors) judged by TLC: every cell equals the effect value on the rows of its group and 0 elsewhere, group slots in level order with the effect fastest, labels = columns. Coding: every ordered family of <= 2 effect terms over {f,h,x} with and without '0 +', for grouping expressions g, g:k, C(g) and the distributing forms (e | g + k), (e | g/k), written jointly, as separate group terms in random order and with the group intercept left implicit, on replicated fully crossed data: the columns of each grouping factor must have full rank and span indicator(g) (x) full effect coding (exact integer ranks).",
+        "text": "Cell-level: Design_MC group formulas replayed exactly; random builds with group terms (intercept, numeric, categorical, call and interaction effects; single, interaction, sum and C() grouping expressions; the same effect under two factors) judged by TLC: every cell equals the effect value on the rows of its group and 0 elsewhere, group slots in level order with the effect fastest, labels = columns. Coding: every ordered family of <= 2 effect terms over {f,h,x} with and without '0 +', for grouping expressions g, g:k, C(g), with the effect factors plain, as a spline or wrapped in calls (C(f), C(h, Sum)), and the distributing forms (e | g + k), (e | g/k), written jointly, as separate group terms in random order and with the group intercept left implicit, on replicated fully crossed data: the columns of each grouping factor must have full rank and span indicator(g) (x) full effect coding (exact integer ranks).",
         "ref": "DESIGN.md §3.5, §3.7, §4 C05",
         "note": "Trusted: as C03/C04. Open finding KF_C05_effect_coding: families on which the code's simplified rule (spec predicate SimpleRuleExact) is not an exact cover.",
     },
     "C13": {
         "technique": "TLA+ spec (Coding.tla: validity predicates with exact fraction-free ranks = Abs; index-formula transcription of categorical.py = Impl) model checked with TLC for every size and reference; spec matrices compared with the real Treatment/Sum objects; real matrices judged by TLC; option handling replayed through design_matrices against the spec's matrices; interchangeability through Contrasts.tla + exact ranks",
-        "text": "TLC proves for every n <= 8 (quick) / 12 (thorough) and every reference / omitted level that the transcribed constructions satisfy the validity predicates (indicator columns with zero reference row; zero column sums with the omitted level coded -1; k = n-1; rank n together with the constant; full codings of rank n; labels name the levels) and the real Treatment/Sum outputs must equal the spec's matrices (string and integer level values; an encoding object used for another level list first must behave like a fresh one); the real matrices for n <= 12 are judged by TLC directly. Every permutation of <= 4 (5) levels passed as levels= x every reference x string and integer level values (incl. 0, not in first place) x 10 spellings of C/T/S (incl. defaults and the T = C(Treatment), S = C(Sum) synonyms) x with/without intercept is built by the real code and compared with the spec's rows and level labels. Swapping codings never changes the column space: C03's exact-rank replay with variable / C / T(ref) / S / C(Sum) atoms, on integer and on quarter-valued numeric columns.",
+        "text": "TLC proves for every n <= 11 (quick) / 13 (thorough) and every reference / omitted level that the transcribed constructions satisfy the validity predicates (indicator columns with zero reference row; zero column sums with the omitted level coded -1; k = n-1; rank n together with the constant; full codings of rank n; labels name the levels) and the real Treatment/Sum outputs must equal the spec's matrices (string and integer level values; an encoding object used for another level list first must behave like a fresh one); the real matrices for n <= 13 are judged by TLC directly. Every permutation of <= 4 (5) levels passed as levels= x every reference x string and integer level values (incl. 0 not in first place, and integers whose text order differs from their numeric order) x 10 spellings with levels= and 7 without (default order = sorted values) of C/T/S (incl. defaults and the T = C(Treatment), S = C(Sum) synonyms) x with/without intercept is built by the real code and compared with the spec's rows and level labels. Swapping codings never changes the column space: C03's exact-rank replay with variable / C / T(ref) / S / C(Sum) atoms, on integer and on quarter-valued numeric columns.",
         "ref": "DESIGN.md §3.6, §4 C13",
         "note": "Trusted: TLC integer arithmetic (32-bit; determinants of 0/±1 matrices up to 13x13 stay far below 2^31), fv/rank.py.",
     },
@@ -97,7 +97,7 @@ CHECKS = {
     },
     "C14": {
         "technique": "TLA+ spec in exact rational arithmetic (Transforms.tla: contracts = Abs; percentile knots, Cox-de Boor recursion, three-term recurrence and the branch table of BSpline._initialize = Impl) model checked with TLC on all small integer inputs; exact values replayed into formulae.transforms at 1e-9; TLC as exact oracle for harness-chosen longer inputs",
-        "text": "TLC proves in exact rationals, for every integer vector of length 3..4 over 0..3 and degree 1..3, that center has mean zero, scale has unit population variance, the poly recurrence gives mutually orthogonal columns orthogonal to the constant; for every non-constant vector of length 4 over 0..2 (quick) / 4..5 over 0..4 (thorough) x 0..2 inner knots x degree 0..3 x intercept x explicit boundary knots 0 or 1 beyond the data on either side that the B-spline basis on percentile knots has the documented number of columns, is non-negative and sums to one (also on later data with remembered knots); and that the branch table of BSpline._initialize equals the documented refusal rules on all 5600 parameter classes. Every case is replayed into the real Center/Scale/Polynomial/BSpline objects (training call, then later data on the same instance; raw=True = powers; explicit knots = df) and compared with the exact values. center / scale / standardize / poly are also reached by name through a formula (design built on x, then evaluated on the later data) and must give the values of the judged objects; the exact values of center / scale are also demanded of the same data shifted by 1e6 and 1e7. Longer vectors with ties are decided with the spec as oracle.",
+        "text": "TLC proves in exact rationals, for every integer vector of length 3..4 over 0..3 and degree 1..3, that center has mean zero, scale has unit population variance, the poly recurrence gives mutually orthogonal columns orthogonal to the constant; for every non-constant vector of length 4 over 0..2 (quick) / 4..5 over 0..4 (thorough) x 0..2 inner knots x degree 0..3 x intercept x explicit boundary knots 0 or 1 beyond the data on either side that the B-spline basis on percentile knots has the documented number of columns, is non-negative and sums to one (also on later data with remembered knots); and that the branch table of BSpline._initialize equals the documented refusal rules on all 5600 parameter classes. Every case is replayed into the real Center/Scale/Polynomial/BSpline objects (training call, then later data on the same instance; raw=True = powers; explicit knots = df; the same values tiled to 70-190 shuffled rows must reproduce the short rows) and compared with the exact values. center / scale / standardize / poly are also reached by name through a formula (design built on x, then evaluated on the later data) and must give the values of the judged objects; the exact values of center / scale are also demanded of the same data shifted by 1e6 and 1e7. Longer vectors with ties are decided with the spec as oracle.",
         "ref": "DESIGN.md §3.10, §4 C14, §8",
         "note": "NOT decided by this technique: accuracy of bs / poly under large offsets / ill-conditioning, degree > 3, long vectors (TLC has 32-bit integers and no floats). Irrational outputs (scale, orthonormal poly) are compared through their squares and signs. Open finding KF_C14_knot_at_upper_bound.",
     },
